@@ -684,7 +684,12 @@ func modelErrorf(e *Engine, fr *Frame, st *State, fn *ssa.Function, args []Val, 
 		}
 		ai++
 	}
-	anyT := types.NewInterfaceType(nil, nil)
+	var anyT types.Type = types.NewInterfaceType(nil, nil)
+	if ps := fn.Signature.Params(); ps.Len() == 2 {
+		if sl, ok := ps.At(1).Type().Underlying().(*types.Slice); ok {
+			anyT = sl.Elem()
+		}
+	}
 	switch len(wIdx) {
 	case 0:
 		res := e.newErrorValue(st, "*fmt.fmtError")
@@ -760,6 +765,10 @@ func modelErrorsAs(e *Engine, fr *Frame, st *State, fn *ssa.Function, args []Val
 	}
 	asked := pt.Elem()
 	found, val := e.errAs(args[0].(T), asked)
+	if _, isPtr := asked.Underlying().(*types.Pointer); isPtr {
+		e.trust("errors.As: error values never hold typed nil pointers")
+		e.assume(st, tImp(found, T{fmt.Sprintf("(not (= (iref %s) nil))", val.S), sBool}))
+	}
 	// store on success
 	ptr := e.val(fr, mi.X)
 	s2 := st.clone()
